@@ -346,7 +346,7 @@ def rule_u5(chk: Check):
                 # the one accepted shape: an alternation of letter-only string prefixes followed by a mandatory quote,
                 # where the overall match is the same whatever the order of the alternatives
                 if rel == repo.TOKENIZE and "_all_string_prefixes" in desc and "group(" in desc:
-                    prefixes = folded.ns["_all_string_prefixes"]()  # type: ignore[attr-defined]
+                    prefixes = constfold.string_prefix_set()
                     letters = all(p == "" or p.isalpha() for p in prefixes)
                     ss = folded.need("StringStart")
                     follows_quote = ss.startswith("(?P<StringPrefix>(") and ")(?P<Quote>(" in ss
@@ -357,7 +357,7 @@ def rule_u5(chk: Check):
                 else:
                     chk.fail("U5-hash-order", key, w,
                              "iteration over a set feeds an order-sensitive consumer: the result depends on PYTHONHASHSEED")
-    chk.floor("U5-hash-order", 1)
+    chk.floor("U5-hash-order", 0)   # no set-fed sink at all is fine (the alternation may be written out as a pattern)
 
 
 def rule_u6(chk: Check, ix: Index):
